@@ -132,7 +132,7 @@ def run(ctx):
       if not (0 <= u < (1 << s[1])): raise NotWellTyped(f'leaf value {u} out of range of Bits{s[1]}')
       return u
     if s[0] == 's':
-      if type(o) is not s[1].pycls: raise NotWellTyped(f'{o!r} is not an instance of {s[1].name}')
+      if type(o) is not s[1].pycls: raise NotWellTyped(f'{o!r} (class with fields {list(getattr(type(o), "__bitstruct_fields__", {}))}) is not an instance of the declared class {s[1].name} with fields {[n for n, _ in s[1].fields]}')
       return [observe(f, getattr(o, n)) for n, f in s[1].fields]
     if not isinstance(o, list) or len(o) != s[1]: raise NotWellTyped(f'{o!r} is not a list of {s[1]}')
     return [observe(s[2], x) for x in o]
@@ -182,12 +182,12 @@ def run(ctx):
       kind = 'b'
     ws = [w for w in LEAF_W if w <= budget]
     return ('b', rng.choice(ws))
-  def rand_fields(max_depth):
+  def rand_fields(max_depth, budget=None):
     nf = rng.choice([1, 2, 2, 3, 3, 4, 5, 6])
     names = rng.sample(FIELD_NAMES, nf)
     if rng.random() < 0.3: names[rng.randrange(nf)] = rng.choice(['s', 'self']) if not {'s', 'self'} & set(names) else names[0]
     names = list(dict.fromkeys(names))
-    budget = rng.choice([1023, 1023, 200, 64, 40])
+    budget = budget or rng.choice([1023, 1023, 200, 64, 40])
     fields = []
     for k, n in enumerate(names):
       rest = len(names) - k - 1
@@ -229,6 +229,28 @@ def run(ctx):
     classes.append(c)
     return c
 
+  def nest_family(made, tag):
+    """parents that contain SEVERAL distinct classes of one __name__ and one width (other splits / names / nesting): directly,
+    inside list fields, and one level deeper.  from_bits / __init__ must bind every nested position to ITS declared class object."""
+    if not made: return
+    by_w = {}
+    for x in made: by_w.setdefault(x.width, []).append(x)
+    same = max(by_w.values(), key=len)
+    same = list({id(x.pycls): x for x in same}.values())
+    if len(same) < 2: same = same * 2
+    A, B, C = same[0], same[1], same[-1]
+    W, d = A.width, max(x.depth for x in same)
+    S = lambda x: ('s', x)
+    if d <= 3 and 2 * W + 3 <= 1023:
+      gen_class(4, [('h0', S(A)), ('h1', S(B)), ('t', ('b', 3))], name=f'Par{uniq}_{tag}a')
+      gen_class(4, [('h1', S(B)), ('h0', S(A)), ('h2', S(C))] if 3 * W <= 1023 else [('h1', S(B)), ('h0', S(A))], name=f'Par{uniq}_{tag}b')
+    if d <= 3 and 5 * W <= 1023:
+      gen_class(4, [('l', ('l', 2, S(B))), ('h', S(A)), ('m', ('l', 1, ('l', 2, S(C))))], name=f'Par{uniq}_{tag}c')
+    if d <= 2 and 2 * W + 1 <= 1023:
+      mid = gen_class(4, [('x', S(A)), ('e', ('b', 1))], name=f'Mid{uniq}_{tag}')
+      if mid is not None:
+        gen_class(4, [('m', S(mid)), ('h', S(B))], name=f'Par{uniq}_{tag}d')
+        gen_class(4, [('h', S(C)), ('ml', ('l', 2, S(mid)))], name=f'Par{uniq}_{tag}e') if 3 * W + 2 <= 1023 else None
   def from_spec(spec, cache):
     """rebuild a class (and the classes nested in it) from the JSON description stored in a replay file, names included"""
     def sh(x):
@@ -261,22 +283,26 @@ def run(ctx):
     gen_class(4, [('t', ('s', c_top)), ('t2', ('l', 1, ('s', c_top)))])           # depth 4
     gen_class(4, [('big', b(1000)), ('l', ('l', 23, b(1)))])                      # total width 1023
     gen_class(4, [('l', ('l', 3, ('l', 3, ('l', 2, b(56))))), ('e', b(15))])      # 1008 + 15 = 1023
+    hdr = [gen_class(4, f, name=f'Hdr{uniq}') for f in ([('opq', b(4)), ('len', b(12))], [('src', b(4)), ('dst', b(12))], [('kind', b(12)), ('id', b(4))],
+                                                      [('len', b(12)), ('opq', b(4))], [('w', ('l', 2, b(8)))])]   # one __name__, one width, five classes
+    nest_family(hdr, 'hdr')
   except StopIteration:
     pass
   except CreateFailed:
     BS._create_fn, BS.py = real_create, real_py
     return
-  nrand = (110 if quick else 320) if rp is None else len(classes) - 12
+  ndir = len(classes)
+  nrand = (60 if quick else 260) if rp is None else 0
   tries = 0
-  while len(classes) < 12 + nrand and tries < 3 * nrand:
+  while len(classes) < ndir + nrand and tries < 3 * nrand:
     tries += 1
     gen_class(rng.choice([1, 2, 2, 3, 3, 4]))
   # families: several declarations that share ONE class name and (mostly) one field set, but differ in field order, in the
   # pairing of names and types, in one type, or in nesting; plus an identical re-declaration.  Each is checked against its own declaration.
-  nfam = 0 if rp is not None else (8 if quick else 30)
+  nfam = 0 if rp is not None else (5 if quick else 24)
   for k in range(nfam):
     for _ in range(50):
-      base = rand_fields(rng.choice([1, 2, 3]))
+      base = rand_fields(rng.choice([1, 2, 2, 3]), rng.choice([150, 64, 40, 16]))
       if len(base) >= 2 and len({json.dumps(sh_spec(x)) for _, x in base}) >= 2: break
     else: continue
     fam = f'Fam{uniq}_{k}'
@@ -290,8 +316,11 @@ def run(ctx):
     q = rng.randrange(len(base))
     if not (base[q][1][0] == 'l' and base[q][1][2][0] == 'l' and base[q][1][2][2][0] == 'l'):
       n1 = list(base); n1[q] = (base[q][0], ('l', 1, base[q][1])); variants.append(n1)                             # nesting differs
+    if tot >= 2:
+      w0 = rng.randrange(1, tot); variants.append([('p0', ('b', w0)), ('p1', ('b', tot - w0))])                   # other names, other split, same width
     rng.shuffle(variants)
-    for v in variants: gen_class(4, v, name=fam)
+    made = [x for x in (gen_class(4, v, name=fam) for v in variants) if x is not None]
+    nest_family(made, f'{k}')
   shape_defs = '\n'.join(f'Definition T{c.idx} : shape := {cls_term(c)}.' for c in classes)
   imports = 'Base.Prelude Struct.Shape Struct.Layout'
 
@@ -402,10 +431,12 @@ def run(ctx):
         scan_one(c, cpy, op, va, vb)
         u = write(cpy if who else a)
         obs = (observe(s, a), observe(s, cpy)); scop = 'ScClone'
-      elif op == 'imatmul_bits':
-        a @= bobj.to_bits()
+      elif op in ('imatmul_bits', 'ilshift_bits'):
+        if op == 'imatmul_bits': a @= bobj.to_bits()
+        else:
+          a <<= bobj.to_bits(); a._flip()
         if packed(a) != packed(bobj) or observe(s, a) != observe(s, bobj):
-          viol_value(op, c, 'x @= Bits(...) did not store the value', {'value': va, 'bits': hex(packed(bobj)), 'built_by': hows})
+          viol_value(op, c, 'x @= Bits(...) / x <<= Bits(...); _flip() did not store the value', {'value': va, 'bits': hex(packed(bobj)), 'built_by': hows})
         ctx.count((op, c.spec(), repr(va), repr(vb), hows), True, cls='copy:' + op)
         return
       elif op == 'imatmul':
@@ -446,7 +477,7 @@ def run(ctx):
     leaves = sh_leaves(s)
     walk = sorted({0, W - 1, rng.randrange(W), rng.randrange(W)})
     bvals = [0, full] + [1 << i for i in walk] + [full ^ (1 << walk[-1])] + [rng.getrandbits(W) for _ in range(nvals)]
-    if not quick or c.idx < 12:
+    if not quick or c.idx < ndir:
       bvals += [1 << i for i in range(0, W, max(1, W // 32))]
     if rp is not None and c is classes[-1]:
       if 'bits' in rp: bvals.insert(0, int(rp['bits'], 16) & full)
@@ -506,8 +537,8 @@ def run(ctx):
           viol_value('hash', c, f'hash raised {e!r}', {'value': v})
       # ---- copies: clone / deepcopy / @= / <<= , then an in-place write to one leaf of one side
       va = v; vb = v_unpack(s, rng.getrandbits(W) if bi % 2 else full ^ bv)
-      all_ops = ['poke', 'clone', 'deepcopy', 'imatmul', 'imatmul_bits', 'ilshift_noflip', 'ilshift_flip', 'ilshift_poke_flip']
-      for op in (all_ops if (not quick or c.idx < 12) else rng.sample(all_ops, 4)):
+      all_ops = ['poke', 'clone', 'deepcopy', 'imatmul', 'imatmul_bits', 'ilshift_bits', 'ilshift_noflip', 'ilshift_flip', 'ilshift_poke_flip']
+      for op in (all_ops if (not quick or c.idx < ndir) else rng.sample(all_ops, 4)):
         scenario(c, op, va, vb, 'auto', 'auto')
     # ---- default-constructed and partly default-constructed instances, as destination, as source, and written in place
     zero = v_unpack(s, 0)
@@ -518,6 +549,7 @@ def run(ctx):
                                    ('imatmul', zero, vr, 'default', 'auto'), ('imatmul', vr, zero, 'auto', 'default'), ('imatmul', vp, vr, 'partial', 'auto'),
                                    ('ilshift_flip', zero, vr, 'default', 'auto'), ('ilshift_flip', vr, zero, 'auto', 'default'),
                                    ('ilshift_poke_flip', vp, vr, 'partial', 'args'), ('clone', zero, zero, 'default', 'default'), ('deepcopy', vp, vp, 'partial', 'partial')):
+        if quick and c.idx >= ndir and rp is None and rng.random() < 0.5: continue
         scenario(c, op, va_, vb_, ha, hb)
 
   def hexs(t):
